@@ -199,6 +199,8 @@ def make_progset(spec, F, D):
         _fill_ts(prog.unit_cost, p["cost"])
         if p.get("per_year"):
             prog.unit_cost.units = "$/person/year"
+        elif p.get("legacy_units"):
+            prog.unit_cost.units = "$/person"  # the older spelling of a one-off unit cost (no "(one-off)" marker), still found in program books
         if p.get("cap"):
             _fill_ts(prog.capacity_constraint, p["cap"])
             prog.capacity_constraint.units = "people/year" if p.get("cap_per_year", True) else "people"
